@@ -279,6 +279,14 @@ func (e *Engine) VerifyFunction(fn *ssa.Function, ct *Contract, timeoutMs, par i
 	_ = fr
 	if exit != nil {
 		x.C.Cover(unit+"#cover.exit", e.posOf(fn), exit.Reach)
+		// every return site must be reachable under the precondition (vacuity guard:
+		// a contradictory assumption on one path would make everything on it provable)
+		if fr != nil && len(fr.returns) > 1 {
+			for k, re := range fr.returns {
+				o := x.C.Cover(fmt.Sprintf("%s#cover.return%d", unit, k+1), x.pos(re.from.Instrs[len(re.from.Instrs)-1].Pos()), re.cond)
+				o.ReturnCover = true
+			}
+		}
 		if ct != nil {
 			post := &specEnv{x: x, fn: fn, st: exit, old: x.entry, names: map[string]Value{}}
 			for k, v := range env.names {
